@@ -155,12 +155,14 @@ class Dataset(object):
 
     def close(self):
         for inp in self.inputs:
-            f = getattr(inp, "_file", None)
-            if f is not None:
-                try:
+            # best effort only: `_file` is a private detail of verif.input.Netcdf (it may be absent, or a
+            # property that opens the file) - the handles are also closed when the objects are collected
+            try:
+                f = inp.__dict__.get("_file")
+                if f is not None:
                     f.close()
-                except Exception:
-                    pass
+            except Exception:
+                pass
         self.inputs = []
         self.data = None
 
@@ -224,6 +226,8 @@ class RefServer(object):
                 os.close(pw)
                 sim.cf.active = False
                 sim.cf.armed = []
+                if getattr(sim, "_ref_dir", None):
+                    os.chdir(sim._ref_dir)
                 # a fresh process has its own global RNG state (unpinned comparisons must not share it)
                 from . import prng as _prng
                 np.random.seed(_prng.derive_int(sim.spec.get("seed"), sim.spec.get("run"), "np-global-reference") % (2 ** 32))
@@ -385,7 +389,7 @@ class DataSim(object):
         fired = Counter()
         fired.update(self.env.fired)
         fired.update(self.cf.fired)
-        for k in ("fail_request", "rebuild_on_same_inputs", "rng_perturb"):
+        for k in ("fail_request", "rebuild_on_same_inputs", "rng_perturb", "replace_file_while_open"):
             if self.stats.get("fired:" + k):
                 fired[k] += self.stats["fired:" + k]
         return {"violation": self.violation, "digest": digest, "stats": dict(self.stats), "fired": dict(fired),
@@ -398,6 +402,11 @@ class DataSim(object):
         self.names = W.materialise(self.world, ".")
         self.file_digests = {n: file_digest(n) for n in self.names}
         self._sizes = {}
+        if self.want_ref and any(op.get("op") == "replace_file" for op in self.ops):
+            # the reference model reads its own copy of the stored files: a file replaced under the feet of
+            # the live dataset (replace_file) is an event of the live history only
+            W.materialise(self.world, "ref")
+            self._ref_dir = "ref"
         if self.want_ref:
             # forked now: pristine state, TZ=UTC, before any environment operation or live request
             self.refserver = RefServer(self)
@@ -477,6 +486,25 @@ class DataSim(object):
             return
         if kind == "arm":
             self.cf.arm(op["file"], op["var"], op["nth"], op.get("kind", "hdf"))
+            self.emit(rec)
+            return
+        if kind == "replace_file":
+            # the path gets a new inode with other content (same dimensions, other values), the way rsync or
+            # mv replace a file, while the live dataset still uses the input object loaded from the old one
+            name = op["file"]
+            party = [p_ for p_ in W.parties(self.world) if p_["name"] == name]
+            if party:
+                idx = W.parties(self.world).index(party[0])
+                w2 = W.twin(self.world, idx, delta=op.get("delta", 333.0))
+                p2 = W.parties(w2)[idx]
+                tmp = name + ".new"
+                if p2["format"] == "text":
+                    W.write_text(w2, p2, tmp)
+                else:
+                    W.write_nc(w2, p2, tmp)
+                os.replace(tmp, name)
+                self.file_digests[name] = file_digest(name)
+                self.stats["fired:replace_file_while_open"] += 1
             self.emit(rec)
             return
         if kind == "rebuild":
